@@ -53,7 +53,7 @@ def one_match_case(ctx, cfg, a, read, cases):
         return
     ctx.count("match:" + cfg["ty"])
     import cutadapt.adapters as A
-    probs = OA.check_match(cfg["ty"], a, read, mt, isinstance(mt, A.RemoveBeforeMatch))
+    probs = OA.check_match(cfg["ty"], a, read, mt, isinstance(mt, A.RemoveBeforeMatch), OA.doc_min_overlap(cfg, len(a.sequence)))
     aligned = a.sequence[mt.astart:mt.astop]
     if mt.errors > 0 or (a.adapter_wildcards and "N" in aligned):
         ctx.nontriv(("M", cfg["ty"], a.sequence, cfg["max_errors"], a.min_overlap, a.read_wildcards, a.adapter_wildcards, a.indels, read))
@@ -126,7 +126,22 @@ def index_cases(ctx, n):
             ctx.count("index:not-indexable")
             done += 1
             continue
-        for _ in range(12):
+        asked = []
+        for qi in range(18):
+            if qi >= 12:
+                # ask again for reads seen before: the answer of an index must not depend on what it was asked earlier
+                if not asked:
+                    break
+                core = rng.choice(asked)
+                mt = idx.match_to(core)
+                done += 1
+                ctx.evaluations += 1
+                ctx.count("index:asked-again")
+                if mt is not None:
+                    for p in OA.check_match(ty, mt.adapter, core, mt, isinstance(mt, A.RemoveBeforeMatch), len(mt.adapter.sequence)):
+                        ctx.failures.append(Failure("C01/" + p.split()[0], f"match reported through the adapter index (second look-up of the same read) "
+                                                    f"violates C01: {p}", dict(index_of=cfgs, read=core, asked_before=asked), gens.show_match(mt), None))
+                continue
             a = rng.choice(ads)
             core = gens.gen_read(rng, a.sequence)
             x = rng.random()
@@ -145,6 +160,7 @@ def index_cases(ctx, n):
                         t = ["A"]
                 rest = "".join(rng.choice("ACGT") for _ in range(rng.choice([0, 0, 1, 3, 10])))
                 core = "".join(t) + rest if prefix else rest + "".join(t)
+            asked.append(core)
             mt = idx.match_to(core)
             done += 1
             ctx.evaluations += 1
@@ -156,7 +172,7 @@ def index_cases(ctx, n):
                 ctx.failures.append(Failure("C01/bounds", "the index reports a match of an adapter that is not in the index", dict(cfgs=cfgs, read=core),
                                             gens.show_match(mt), None))
                 continue
-            for p in OA.check_match(ty, mt.adapter, core, mt, isinstance(mt, A.RemoveBeforeMatch)):
+            for p in OA.check_match(ty, mt.adapter, core, mt, isinstance(mt, A.RemoveBeforeMatch), len(mt.adapter.sequence)):
                 ctx.failures.append(Failure("C01/" + p.split()[0], f"match reported through the adapter index violates C01: {p}",
                                             dict(index_of=cfgs, cfg=cfg, read=core), gens.show_match(mt), None))
             if mt.errors > 0:
